@@ -276,7 +276,8 @@ def check_instances(doc, d, sigs, out, ctx):
     used = set()
     for inst in d["instances"]:
         cand = [(m, c) for (m, c) in cells if id(c) not in used and c.type == "\\" + inst["type"]
-                and set(c.params) == set(inst["params"]) and set(c.conns) == {n for n, _ in inst["ins"]} | {n for n, _ in inst["outs"]}]
+                and set(c.params) == set(inst["params"]) and set(c.conns) == {n for n, _ in inst["ins"]} | {n for n, _ in inst["outs"]}
+                and (set(c.attrs) - {"src"}) == set(inst["attrs"])]
         # several identical candidates are fine: match the first that satisfies everything
         ok = False
         why = "no cell with this type/parameter/port set"
